@@ -11,6 +11,7 @@ package rojson
 //@   props C18
 //@   binds v
 //@   calls Marshal
+//@   params v
 //@   maypanic
 //@   track call.*
 //@   ensures [calls-the-wrapped-function-once|C18] count(call.ANY) == 1 && called(call.Marshal)
@@ -21,6 +22,7 @@ package rojson
 //@   props C18
 //@   binds v
 //@   calls Unmarshal
+//@   params v
 //@   maypanic
 //@   track call.*
 //@   ensures [calls-the-wrapped-function-once|C18] count(call.ANY) == 1 && called(call.Unmarshal)
